@@ -422,7 +422,8 @@ theorem table_functions_current :
     tableCurrent.fns.map (·.name) = [
       "algorithm.integer_power", "algorithm.extended_euclidean", "algorithm.gcd", "algorithm.lcm",
       "algorithm.find_factors", "algorithm.fft", "algorithm.ifft", "polynomial._sort_uniq",
-      "polynomial.leading_coefficient", "traits.traits", "Polynomial.__init__", "Polynomial.traits",
+      "polynomial.leading_coefficient", "traits.traits", "primitives.quotient", "Polynomial.__init__",
+      "Polynomial.traits",
       "Polynomial.__neg__", "Polynomial.__add__", "Polynomial.__radd__", "Polynomial.__sub__",
       "Polynomial.__mul__", "Polynomial.__rmul__", "Polynomial.__pow__", "Polynomial.__divmod__",
       "Polynomial.__floordiv__", "Polynomial.__mod__", "Polynomial.data", "Polynomial.base",
@@ -430,7 +431,11 @@ theorem table_functions_current :
       "EuclideanRingTraits.gcd_extended", "EuclideanRingTraits.gcd", "EuclideanRingTraits.lcm",
       "IntegerTraits.norm", "IntegerTraits.get_unit", "Rational.__init__", "Rational.__neg__",
       "Rational.__bool__", "Rational.numerator", "Rational.denominator", "Rational.reciprocal",
-      "EvaluationMapper.map_polynomial", "IdentityMapper.map_polynomial"] := by
+      "Rational.__add__", "Rational.__radd__", "Rational.__sub__", "Rational.__rsub__",
+      "Rational.__mul__", "Rational.__rmul__", "Rational.__div__", "Rational.__rdiv__",
+      "Rational.__pow__",
+      "EvaluationMapper.map_polynomial", "EvaluationMapper.map_quotient",
+      "IdentityMapper.map_polynomial"] := by
   decide
 
 end PV.Properties.C19
